@@ -35,31 +35,64 @@ class _Connection(sqlite3.Connection):
         _boundary()
         return super().execute(*a, **kw)
 
+    def executemany(self, *a, **kw):
+        _boundary()
+        return super().executemany(*a, **kw)
+
+    def executescript(self, *a, **kw):
+        _boundary()
+        return super().executescript(*a, **kw)
+
     def commit(self):
         _boundary()
         return super().commit()
 
 
-def install():
-    if getattr(tofumod.sqlite3, "_vf_shim", False):
-        return
-    real = tofumod.sqlite3
-    shim = types.ModuleType("sqlite3_shim")
-    shim.__dict__.update({k: getattr(real, k) for k in dir(real)})
+REAL_CONNECT = sqlite3.connect
 
+
+def rebind_connect(mod, factory):
+    """Make every way `mod` reaches sqlite3.connect produce connections of class `factory`: a module-level `sqlite3` (under
+    any alias) is replaced by a copy whose connect() does, and a module-level alias of connect itself (`from sqlite3 import
+    connect`) is replaced by that function.  Returns the wrapper.  The code under test keeps its own way of importing."""
     def connect(*a, **kw):
-        kw.setdefault("factory", _Connection)
-        return real.connect(*a, **kw)
-    shim.connect = connect
-    shim._vf_shim = True
-    tofumod.sqlite3 = shim
+        kw.setdefault("factory", factory)
+        return REAL_CONNECT(*a, **kw)
+    connect._vf_wrapper = True
+    for name, val in list(vars(mod).items()):
+        if isinstance(val, types.ModuleType) and getattr(val, "__name__", "") in ("sqlite3", "sqlite3_shim", "sqlite3.dbapi2"):
+            shim = types.ModuleType("sqlite3_shim")
+            shim.__dict__.update({k: getattr(sqlite3, k) for k in dir(sqlite3)})
+            shim.connect = connect
+            shim._vf_shim = True
+            setattr(mod, name, shim)
+        elif val is REAL_CONNECT or getattr(val, "_vf_wrapper", False):
+            setattr(mod, name, connect)
+    return connect
+
+
+_GLOBAL = {}
+
+
+def global_connect(wrapper):
+    """While a fault is armed, sqlite3.connect itself is the wrapper too (code that imports sqlite3 inside a function)."""
+    if wrapper is None:
+        sqlite3.connect = REAL_CONNECT
+    else:
+        sqlite3.connect = wrapper
+
+
+def install():
+    _GLOBAL["w"] = rebind_connect(tofumod, _Connection)
 
 
 def arm(k):
     install()
+    global_connect(_GLOBAL["w"])
     STATE["k"] = k
     STATE["count"] = 0
 
 
 def disarm():
+    global_connect(None)
     STATE["k"] = None
